@@ -180,38 +180,89 @@ def frames(ctx, rule="R12.2"):
             return frame_of(e.value, env)
         return None
 
+    def frames_of(e, env):
+        """Set of frames the expression may carry (union over the branches that assigned its names)."""
+        t = ast.unparse(e)
+        if t in env:
+            return set(env[t])
+        if t in ("self.pos", "self.cond_pos", "self._cond_pos", "fld.pos", "cond_pos"):
+            return {ORIG}
+        if t in ("self._krige_pos",):
+            return {ISO}
+        if isinstance(e, ast.Call):
+            f = ast.unparse(e.func)
+            if f.endswith(".isometrize") and e.args:
+                return {ISO if fr == ORIG else "ERR:isometrize applied to %s" % fr for fr in frames_of(e.args[0], env)} or {None}
+            if f.endswith(".anisometrize") and e.args:
+                return {ORIG if fr == ISO else "ERR:anisometrize applied to %s" % fr for fr in frames_of(e.args[0], env)} or {None}
+            if f == "generate_grid" and e.args:
+                return frames_of(e.args[0], env)
+        if isinstance(e, (ast.Subscript, ast.Starred)):
+            return frames_of(e.value, env)
+        if isinstance(e, ast.IfExp):
+            return frames_of(e.body, env) | frames_of(e.orelse, env)
+        return {None}
+
     def analyse(rel, qual, init_env, sinks):
         nonlocal n
         fn = prog.func(rel, qual)
-        env = dict(init_env)
         site = "%s::%s" % (rel, qual)
-        for st in ast.walk(fn):
-            if isinstance(st, ast.Assign):
-                tg = st.targets[0]
-                if isinstance(tg, ast.Tuple) and isinstance(st.value, ast.Call) and ast.unparse(st.value.func) == "self.pre_pos":
-                    env[ast.unparse(tg.elts[0])] = ISO
-                elif isinstance(tg, (ast.Name, ast.Attribute)):
-                    fr = frame_of(st.value, env)
-                    if fr is not None:
-                        env[ast.unparse(tg)] = fr
-                        if fr.startswith("ERR:"):
-                            ctx.violation(rule, site, "%s in `%s`" % (fr[4:], norm_stmt(st)[:80]), "err:" + norm_stmt(st))
-        for node in ast.walk(fn):
-            if isinstance(node, ast.Call):
-                f = ast.unparse(node.func)
-                for sink, (idxs, want) in sinks.items():
-                    if f == sink or (sink.startswith("*") and f in fn_locals(fn, sink[1:])):
-                        for ix in idxs:
-                            arg = None
-                            if isinstance(ix, int) and ix < len(node.args):
-                                arg = node.args[ix]
-                            elif isinstance(ix, str):
-                                arg = {k.arg: k.value for k in node.keywords}.get(ix)
-                            if arg is None:
-                                continue
-                            fr = frame_of(arg, env)
-                            n += 1
-                            ctx.check(fr == want, rule, site, "%s receives %s coordinates: argument `%s` is %s" % (sink, want, ast.unparse(arg)[:50], fr), "%s:%s" % (sink, ast.unparse(arg)))
+        checked = []
+
+        def visit_expr(e, env):
+            for node in ast.walk(e):
+                if isinstance(node, ast.Call):
+                    f = ast.unparse(node.func)
+                    for sink, (idxs, want) in sinks.items():
+                        if f == sink or (sink.startswith("*") and f in fn_locals(fn, sink[1:])):
+                            for ix in idxs:
+                                arg = None
+                                if isinstance(ix, int) and ix < len(node.args):
+                                    arg = node.args[ix]
+                                elif isinstance(ix, str):
+                                    arg = {k.arg: k.value for k in node.keywords}.get(ix)
+                                if arg is None:
+                                    continue
+                                checked.append((sink, arg, frozenset(frames_of(arg, env)), want))
+
+        def walk(stmts, env):
+            for st in stmts:
+                if isinstance(st, ast.Assign):
+                    visit_expr(st.value, env)
+                    tg = st.targets[0]
+                    if isinstance(tg, ast.Tuple) and isinstance(st.value, ast.Call) and ast.unparse(st.value.func) == "self.pre_pos":
+                        env[ast.unparse(tg.elts[0])] = {ISO}
+                    elif isinstance(tg, (ast.Name, ast.Attribute)):
+                        fr = frames_of(st.value, env)
+                        if fr != {None}:
+                            env[ast.unparse(tg)] = fr
+                            for x in fr:
+                                if isinstance(x, str) and x.startswith("ERR:"):
+                                    ctx.violation(rule, site, "%s in `%s`" % (x[4:], norm_stmt(st)[:80]), "err:" + norm_stmt(st))
+                        elif ast.unparse(tg) in env:
+                            env[ast.unparse(tg)] = {None}
+                elif isinstance(st, ast.If):
+                    visit_expr(st.test, env)
+                    e1, e2 = {k: set(v) for k, v in env.items()}, {k: set(v) for k, v in env.items()}
+                    walk(st.body, e1)
+                    walk(st.orelse, e2)
+                    for k in set(e1) | set(e2):
+                        env[k] = e1.get(k, {None}) | e2.get(k, {None})
+                elif isinstance(st, (ast.For, ast.While)):
+                    if isinstance(st, ast.For):
+                        visit_expr(st.iter, env)
+                    walk(st.body, env)
+                elif isinstance(st, (ast.With, ast.Try)):
+                    walk(st.body, env)
+                elif isinstance(st, (ast.Expr, ast.Return, ast.AugAssign)):
+                    if getattr(st, "value", None) is not None:
+                        visit_expr(st.value, env)
+
+        walk(fn.body, {k: {v} for k, v in init_env.items()})
+        for sink, arg, frs, want in checked:
+            n += 1
+            known = {f for f in frs if f is not None}
+            ctx.check(known == {want}, rule, site, "%s receives %s coordinates on every path that defines them: argument `%s` may be %s" % (sink, want, ast.unparse(arg)[:50], sorted(map(str, frs))), "%s:%s:%s" % (sink, ast.unparse(arg), sorted(map(str, known))))
 
     def fn_locals(fn, kind):
         # names bound by `for i, f in enumerate(self.drift_functions)`
